@@ -11,7 +11,9 @@ File layout written by `mm2bin`:   `n | ptr[0..n] | col[0..nnz) | val[0..nnz)`  
 
 Every stream operation is a bounds-checked `Option`: `readAt file pos len` is `f.seekg(pos); f.read(buf, len)`:
 a position that is negative as `std::streamoff` or a read past the end of the file fails (→ `precondition` →
-outcome `error`); offsets are computed in `size_t` arithmetic (modulo `2^64`) as the C++ expressions do.
+outcome `error`); a read of zero bytes succeeds whatever the position (the repaired `read(f, vec)` returns early
+for an empty vector — whether a seek far behind the end of a file is accepted depends on the file system; all
+scalar reads have 8 bytes; the `fixed = false` variant shares this clause, which only concerns zero-length reads); offsets are computed in `size_t` arithmetic (modulo `2^64`) as the C++ expressions do.
 Every access to the vectors the reader fills is bounds-checked as well; an access outside is the outcome `oob`.
 
 `fixed = true` is the repaired reader (`repo_patches/fix_binary_ptr_validation.patch`), `fixed = false` the code
@@ -39,8 +41,8 @@ def encS64 (i : Int) : Bytes := enc64 (ofS64 i)
 
 /-- `f.seekg(pos); f.read(buf, len)` where `pos` is a `size_t` value -/
 def readAt (file : Bytes) (pos len : Nat) : Option Bytes :=
-  if two63 ≤ pos then none                       -- negative `streamoff`: `seekg` fails, so does the read
-  else if len = 0 then some []                    -- reading nothing succeeds wherever the position is
+  if len = 0 then some []                         -- repaired `read(f, vec)`: an empty vector is not read at all
+  else if two63 ≤ pos then none                   -- negative `streamoff`: `seekg` fails, so does the read
   else if pos + len ≤ file.length then some ((file.drop pos).take len)
   else none
 
